@@ -120,6 +120,11 @@ pub fn execute_propose(
     } else if comp.is_none() {
         return Err(ContractError::WrongExpiration {});
     }
+    // A proposal whose voting period has already ended would be stored as Rejected right away;
+    // Close refuses Rejected proposals, so its deposit could never be returned.
+    if expires.is_expired(&env.block) {
+        return Err(ContractError::WrongExpiration {});
+    }
 
     // Take the cw20 token deposit, if required. We do this before
     // creating the proposal struct below so that we can avoid a clone
